@@ -8,24 +8,26 @@ from vlib.core import HARNESS, TV_JAVA_OPTS, ToolError, log, run_tlc
 
 
 def lossy_writer_model(check):
-    """non-vacuity of W1-W4: the same abstract machine with a writer that ignores the count returned by `write`
-    (loses the rest of a short write) must violate the writer invariants in TLC"""
-    t0 = time.time()
-    res = run_tlc("MC_FaultIO", "MC_FaultIO_lossy.cfg", os.path.join(check.work, "md_lossy"), workers=2, timeout=600,
-                  java_opts="-Xss256m", xmx="4g")
-    out = res["out"]
-    if "Invariant I_W3 is violated" in out or "Invariant I_Writer is violated" in out:
-        check.notes.append("MC_FaultIO with Lossy = TRUE (a writer that ignores the count returned by write): TLC finds a violation "
-                           "of the writer invariants, i.e. W2-W4 are not vacuous")
-        log(f"[mc] MC_FaultIO MC_FaultIO_lossy.cfg: defective (lossy) writer rejected by the model as expected ({time.time() - t0:.0f}s)")
-    else:
-        log(out[-3000:])
-        raise ToolError("MC_FaultIO_lossy.cfg: the lossy writer was not rejected by the writer invariants")
+    """non-vacuity of W1-W4 / W7: the same abstract machine with (a) a writer that ignores the count returned by
+    `write` (loses the rest of a short write), (b) a writer whose terminating call, retried after a failure, does
+    nothing and reports success (`finished` set before the write) must violate the writer invariants in TLC"""
+    for cfg, what in (("MC_FaultIO_lossy.cfg", "a writer that ignores the count returned by write"),
+                      ("MC_FaultIO_forgetful.cfg", "a writer whose retried terminating call reports success without writing")):
+        t0 = time.time()
+        res = run_tlc("MC_FaultIO", cfg, os.path.join(check.work, "md_neg"), workers=2, timeout=600,
+                      java_opts="-Xss256m", xmx="4g")
+        out = res["out"]
+        if "Invariant I_W3 is violated" in out or "Invariant I_Writer is violated" in out:
+            check.notes.append(f"MC_FaultIO with {cfg} ({what}): TLC finds a violation of the writer invariants, i.e. they are not vacuous")
+            log(f"[mc] MC_FaultIO {cfg}: defective writer rejected by the model as expected ({time.time() - t0:.0f}s)")
+        else:
+            log(out[-3000:])
+            raise ToolError(f"{cfg}: the defective writer was not rejected by the writer invariants")
 
 
 def detection_selftest(check):
     """the driver's deliberately defective writers / readers (harness/p/c18/src/selftest.rs: write instead of write_all,
-    swallowed write / flush errors, unwrap on an I/O error, bytes re-sent after a short write, Interrupted reported as a
+    swallowed write / flush errors, `finished` set before the fallible write of the trailer, unwrap on an I/O error, bytes re-sent after a short write, Interrupted reported as a
     failure, a made-up error, a reader taking a source error for the end of data, a partial last row, a cut footer file
     accepted) must be rejected event by event by Trace_FaultIO; their well-behaved counterparts must be accepted"""
     t0 = time.time()
@@ -79,7 +81,9 @@ PLAN = dict(
                "is one event; TLC (Trace_FaultIO.tla over FaultOps.tla) re-derives the sink's behaviour from the logged call log and judges "
                "W0-W4 (no panic / hang; a sink failure is reported by the issuing or a later API call; all-ok sessions delivered every "
                "byte; accepted bytes are a prefix of the fault-free output, by length + digest projections; short / Interrupted writes are "
-               "invisible; W5: Parquet never reports a successful finish / close after a failed row group; W6: when a terminating call succeeds "
+               "invisible; W7: when every reported failure came from a terminating call, a later terminating call reports success only with "
+               "the complete output in the sink - every writer has scripts that retry a failed finish once and twice or follow it by close / "
+               "into_inner, with one-shot and persistent faults at every sink call of the terminating phase; W5: Parquet never reports a successful finish / close after a failed row group; W6: when a terminating call succeeds "
                "after a reported failure, the accepted bytes read back with the format's reader never contain a row that was not written) and T1-T3 (cut footer files rejected; self-delimiting formats yield a prefix; source faults yield an error or "
                "the fault-free rows). The abstract writer (std BufWriter + write_all protocol) and reader (read_exact framing, footer "
                "validation) machines of FaultIO.tla are model-checked for every fault index / kind / capacity / cut.",
